@@ -3,5 +3,6 @@ CONSTANTS
   N = 2
   MaxClient = 3
   Mode = "ok"
+  Small = FALSE
 INVARIANTS MonitorOK QuiesceInv StateInv NoLeak
 CHECK_DEADLOCK FALSE
